@@ -28,6 +28,7 @@ var vfPresOps = []vfPresOp{
 	{"a mutes b (want -P)", "a1", "mute"}, {"a unmutes b", "a1", "unmute"}, {"b mutes a (want -P)", "b1", "mute"}, {"b unmutes a", "b1", "unmute"},
 	{"c1:sub me", "c1", "subme"}, {"a1:sub p2p", "a1", "subp2p"}, {"a1:leave p2p", "a1", "leavep2p"},
 	{"a1:sub grp", "a1", "subgrp"}, {"a1:leave grp", "a1", "leavegrp"}, {"b1:sub grp", "b1", "subgrp"}, {"b1:leave grp", "b1", "leavegrp"},
+	{"tick(20s)", "", "tick"},
 }
 
 type vfPresWorld struct {
@@ -97,7 +98,7 @@ func (p *vfPresWorld) meOf(u string) string { return p.users[u].id() }
 // after the deferral, which has elapsed whenever the oracle looks)?
 func (p *vfPresWorld) online(u string) bool {
 	for n := range p.cl {
-		if n[:1] == u && p.attached(n, p.meOf(u)) {
+		if n[:1] == u && p.attached(n, p.meOf(u)) && !p.cl[n].sess.background {
 			return true
 		}
 	}
@@ -125,6 +126,10 @@ func (p *vfPresWorld) hasP(u string) bool {
 }
 
 func (p *vfPresWorld) apply(op vfPresOp) {
+	if op.Kind == "tick" {
+		vsched.Advance(20 * time.Second)
+		return
+	}
 	c := p.cl[op.Sess]
 	u := op.Sess[:1]
 	peer := "b"
@@ -180,8 +185,10 @@ func (p *vfPresWorld) apply(op vfPresOp) {
 	case "leavegrp":
 		c.Req(`{"leave":{"id":"$ID","topic":"%s"}}`, p.grp)
 	}
-	// settle: background->foreground deferral, deferred notifications, idle unloads
-	vsched.Advance(20 * time.Second)
+	if op.Kind == "tick" {
+		// settle: background->foreground deferral, deferred notifications, idle unloads
+		vsched.Advance(20 * time.Second)
+	}
 }
 
 // lastPres returns the last on/off a session was told about src on its 'me' since mark.
@@ -212,8 +219,12 @@ func vfPresExec(hist []int, last bool) vfXResult {
 			res.Violations = append(res.Violations, vfXViolation{Key: key, What: what, Detail: map[string]any{"op": op.Name}})
 		}
 		both := p.hasP("a") && p.hasP("b")
-		// convergence: every partner attached to 'me' whose view could have changed has last been told the truth
-		for _, obs := range []string{"a1", "a2", "b1"} {
+		// convergence ("once activity has settled"): judged only right after time has been allowed to pass
+		observers := []string{"a1", "a2", "b1"}
+		if op.Kind != "tick" {
+			observers = nil
+		}
+		for _, obs := range observers {
 			ou := obs[:1]
 			subj := "b"
 			if ou == "b" {
@@ -330,6 +341,18 @@ func vfPresExec(hist []int, last bool) vfXResult {
 			parts = append(parts, fmt.Sprintf("%s told %s/%v %s/%v at %v", obs, t1, s1, t2, s2, p.attachTruth[obs]))
 		}
 	}
+	var tm []string
+	for _, x := range vsched.ArmedTimers() {
+		name, rest, _ := strings.Cut(x, "+")
+		if name == "after" {
+			continue
+		}
+		if d, err := time.ParseDuration(rest); err == nil {
+			tm = append(tm, fmt.Sprintf("%s+%ds", name, int((d+time.Second-1)/time.Second)))
+		}
+	}
+	sort.Strings(tm)
+	parts = append(parts, fmt.Sprint(tm))
 	res.Key = strings.Join(parts, " | ")
 	return res
 }
